@@ -324,6 +324,8 @@ impl Polynomial<Cmplx> {
                 err = b.abs() + abx * err;
             }
             err *= EPS;
+            #[cfg(feature = "verif")]
+            if b.abs() <= err { crate::verif::laguer( m, iter, 0 ); }
             if b.abs() <= err { return; }
             let g = d / b;
             let g2 = g * g;
@@ -340,9 +342,13 @@ impl Polynomial<Cmplx> {
                 Cmplx::polar( 1.0 + abx, iter as f64 )
             };
             let x1 = *x - dx;
+            #[cfg(feature = "verif")]
+            if *x == x1 { crate::verif::laguer( m, iter, 1 ); }
             if *x == x1 { return; }
             if iter % MT != 0 { *x = x1; } else { *x -= dx * frac[ iter / MT ]; }
         }
+        #[cfg(feature = "verif")]
+        crate::verif::laguer( m, MAXIT, 2 );
     }
 }
 
